@@ -4,5 +4,5 @@ CONSTANTS
   MaxItems = 3
   MaxTargets = 1
   MaxOdd = 0
-INVARIANT NeverCycle
+INVARIANT NeverRootNamed
 CHECK_DEADLOCK FALSE
